@@ -345,7 +345,20 @@ func (d *DB) SetClock(t time.Time) {
 }
 
 func (d *DB) Flush(table string) { zenodb.VerifFlushTable(d.Z, strings.ToLower(table)) }
-func (d *DB) FlushAll()          { d.Z.FlushAll() }
+
+// FlushAll force-flushes every table. With a memory cap configured it flushes
+// the tables one by one instead of calling DB.FlushAll, which deadlocks in that
+// configuration (FlushAll holds tablesMutex while the flushing actor's
+// shouldSort() wants to read-lock it; see DESIGN.md, incidental findings).
+func (d *DB) FlushAll() {
+	if d.Cfg.MaxMemoryRatio > 0 {
+		for _, t := range d.Cfg.Tables {
+			d.Flush(t.Name)
+		}
+		return
+	}
+	d.Z.FlushAll()
+}
 
 // Close closes the database cleanly.
 func (d *DB) Close() {
